@@ -199,6 +199,9 @@ func installSeams() {
 		if !raceMode {
 			cli.VerifSetPoint(pointHook)
 		}
+		if !gidMode {
+			specMismatchText()
+		}
 	})
 }
 
